@@ -37,6 +37,8 @@ FieldClasses == [
   ctype    |-> {"ok", "unknown"},
   submsg   |-> {"ok", "no_params", "no_compression"},
   total    |-> {"ok", "wrong", "huge"},
+  meta     |-> {"ok", "longkey", "longkey_utf8", "manykeys"},            \* metadata keys are free-form strings of the (attacker's) dictionary: long, multi-byte, many -
+                                                                          \* all consistent; every command prints them (print_archive)
   ndesc    |-> {"some", "none"}                                           \* zero chunk descriptors (the empty source) is consistent
 ]
 Fields == DOMAIN FieldClasses
